@@ -1,6 +1,7 @@
 """The `np` replacement handed to the repository's modules."""
 from __future__ import annotations
 
+import math
 import types
 from fractions import Fraction as Fr
 
@@ -483,8 +484,8 @@ class _NP(types.ModuleType):
     @staticmethod
     def arange(*args, **k):
         vals = [SV.of(x) for x in args]
-        if any(v.t is not None for v in vals):
-            raise Unsupported("arange with symbolic bounds")
+        if any(v.t is not None for v in vals) or (len(vals) == 3 and not all(v.isint for v in vals)):
+            return NP._arange_float(vals)
         cs = [v.c for v in vals]
         if len(cs) == 1:
             start, stop, step = Fr(0), cs[0], Fr(1)
@@ -502,6 +503,47 @@ class _NP(types.ModuleType):
         for i, e in enumerate(out):
             r[i] = e
         return SymArray(r, "int" if isint else "float")
+
+    @staticmethod
+    def _arange_float(vals):
+        """np.arange with a non-integer or symbolic step.  NumPy's length is ceil((stop - start) / step) evaluated in
+        IEEE double; the shim computes it in exact arithmetic (it must be the same for every value of the symbols,
+        which the solver confirms) and records the call as an event: whether the IEEE length agrees with the exact
+        one is a floating-point side condition that a harness can discharge (see harness.arange_fp_obligations)."""
+        C = core.ctx()
+        if len(vals) == 1:
+            start, stop, step = SV(c=Fr(0)), vals[0], SV(c=Fr(1))
+        elif len(vals) == 2:
+            start, stop, step = vals[0], vals[1], SV(c=Fr(1))
+        else:
+            start, stop, step = vals
+        q = (stop - start) / step
+        if q.t is None:
+            L = max(0, math.ceil(q.c))
+        else:
+            # candidate from one rational sample point, then confirmed for all values by the solver
+            import z3 as _z3
+
+            from . import solve
+
+            names = sorted(solve.vars_of(q.term()) - {"pi"})
+            sub = [(_z3.Real(n), _z3.RealVal("7919/1000")) for n in names]
+            v = _z3.simplify(_z3.substitute(q.term(), *sub))
+            if not _z3.is_rational_value(v):
+                raise Unsupported("arange with symbolic bounds: length not a rational function of the symbols")
+            L = max(0, math.ceil(Fr(v.numerator_as_long(), v.denominator_as_long())))
+            lit = _z3.And(q.term() > L - 1, q.term() <= L) if L > 0 else q.term() <= 0
+            if solve.quick_feasible(C, _z3.Not(lit), 5000) != "unsat":
+                raise Unsupported("arange with symbolic bounds: the number of elements depends on the symbols")
+        w = core._where()
+        C.events.append(("arange-float", w, L))  # (picklable summary for the evidence)
+        if not hasattr(C, "arange_calls"):
+            C.arange_calls = []
+        C.arange_calls.append(("arange-float", start, stop, step, L, w))
+        r = _np.empty((L,), dtype=object)
+        for i in range(L):
+            r[i] = start + step * Fr(i)
+        return SymArray(r, "float")
 
     @staticmethod
     def linspace(start, stop, num=50, **k):
